@@ -383,7 +383,8 @@ def main(argv):
     ev = dict(property_id=pid, tier=a.tier, seed=seed, level='proof', coverage=cov,
               assumptions=list(getattr(mod, 'ASSUMPTIONS', [])), wall_s=wall, violations=nviol)
     # a --no-build run (development only) checked no theorem: its record is kept apart from the evidence files
-    evdir = os.path.join(VERIF, 'evidence', 'dev') if a.no_build else os.path.join(VERIF, 'evidence')
+    scratch = a.no_build or os.path.realpath(os.environ.get('PMV_REPO', '/repo')) != '/repo'   # a run against another tree is not evidence about /repo
+    evdir = os.path.join(VERIF, 'evidence', 'dev') if scratch else os.path.join(VERIF, 'evidence')
     os.makedirs(evdir, exist_ok=True)
     json.dump(ev, open(os.path.join(evdir, pid + '.json'), 'w'), indent=1, default=str)
     for l in lines:
